@@ -19,6 +19,13 @@ SerialJudge(e) ==
   IF e.exc = "ValueError" /\ e.infeas.kind = "infeasible" /\ NoBoxS(e.orig.a \o e.orig.g, e.infeas)
      /\ InfeasOK(e.orig.a \o e.orig.g, e.names, e.infeas) THEN <<"ok", "rounded-system-unsatisfiable">>
   ELSE IF e.exc = "ValueError" /\ e.rounded THEN <<"unjudged", "rounded-system-may-be-unsatisfiable">>
+  \* ValueError is the documented answer for an unsatisfiable contract: without a certificate of that, the refusal is a violation only
+  \* when a point satisfies every row (a hint; every row is re-evaluated here) -- otherwise nothing is established
+  ELSE IF e.exc = "ValueError"
+       THEN (IF e.feas.kind = "witness" /\ e.feas.d > 0 /\ (\A v \in Rng(e.names) : v \in DOMAIN e.feas.q)
+                /\ AllHoldAt(e.orig.a \o e.orig.g, e.feas.q, e.feas.d)
+             THEN <<"violation", "round-trip-raised:ValueError-on-a-satisfiable-contract">>
+             ELSE <<"unjudged", "refusal-without-certificate">>)
   ELSE IF e.exc # "none" THEN <<"violation", "round-trip-raised:" \o e.exc>>
   \* a file holds a LIST of named entries: what is read is what was written, entry for entry (names may repeat, kinds may mix)
   ELSE IF e.file.names_w # e.file.names_r \/ e.file.kinds_w # e.file.kinds_r THEN <<"violation", e.form \o ":entries-changed">>
